@@ -19,7 +19,9 @@ IdCases == {[kind |-> "ID", fs |-> fs] : fs \in UNION {[1..k -> Forms] : k \in 1
 ValueChars == {97, 32, 39, 34, 92, 37, 233, 10, 58, 59, 45}
 ValCases == {[kind |-> "VAL", v |-> v] : v \in SeqsUpTo(ValueChars, IF N > 3 THEN 4 ELSE 3)}
 \* identifier part lists for the encoder (the keyword class must be quoted by the printer)
-EncParts == {p[2] : p \in PartClasses} \cup {<<102, 114, 111, 109>>, <<112, 114, 105, 109, 97, 114, 121, 95, 107, 101, 121>>}
+\* (also names whose upper-/lower-case form collides with a plain ASCII word: sharp s / "ss", the fi ligature / "fi")
+EncParts == {p[2] : p \in PartClasses} \cup {<<102, 114, 111, 109>>, <<112, 114, 105, 109, 97, 114, 121, 95, 107, 101, 121>>,
+             <<223>>, <<115, 115>>, <<64257>>, <<102, 105>>, <<304>>, <<105>>}
 EncCases == {[kind |-> "PARTS", ps |-> ps] : ps \in UNION {[1..k -> EncParts] : k \in 1..2}}
 
 Init == c \in StrCases \cup IdCases \cup ValCases \cup EncCases
